@@ -49,7 +49,7 @@ def is_boundary(expr, off):
 
 
 ERR = re.compile(r"^(C )?E (\w+) (.*?) ?off=(\d+) line=(\d+) col=(\d+) expr=([0-9a-f]*)$")
-PREFIXES = ["", "", "'é\n😀' && ", "'x'\n  && \n", "'ü' &&\t"]
+PREFIXES = ["", "", "'a'\r && ", "'é\r\nb' &&\r\n", "'é\n😀' && ", "'x'\n  && \n", "'ü' &&\t"]
 
 
 def gen_cases(ctx):
@@ -124,7 +124,7 @@ def run(ctx):
     rng = ctx.rng
     fm = []
     for _ in range(3000 if ctx.tier == "quick" else 60000):
-        s = "".join(rng.choice(["a", "b", "\n", "\n", "é", "😀", " ", ".", "~", "\t"]) for _ in range(rng.randrange(0, 14)))
+        s = "".join(rng.choice(["a", "b", "\n", "\n", "é", "😀", " ", ".", "~", "\t", "\r", "\r\n"]) for _ in range(rng.randrange(0, 14)))
         n = len(s.encode())
         fm.append((s, rng.choice([0, n, rng.randrange(0, n + 3)])))
     if getattr(ctx, "replay", None) and ctx.replay.get("stream") == "errfmt":
